@@ -26,7 +26,11 @@ for pid in ids:
             "design_ref": p.get("design_ref", f"DESIGN.md §6/{pid}"),
         },
         "level_note": p.get("level_note", "Trusted: Lean kernel (axioms propext, Classical.choice, Quot.sound only), the hand-written "
-                            "model (validated by correspondence), the harness. " + " ".join(p.get("assumptions", []))),
+                            "model (validated by correspondence), the harness"
+                            + (", the Go→Lean translator and its prelude GoRT.lean for the translated functions (for those the "
+                               "hand-written model is not trusted: it is proved equal to the translated source text, DESIGN §3a)"
+                               if p.get("generated_layer") else "")
+                            + ". " + " ".join(p.get("assumptions", []))),
         "technique": p.get("technique", "Lean 4 machine-checked proof over a hand-written model + differential correspondence check against the real code"
                            + ("; the leaf functions of the model are additionally regenerated from /repo's source by a Go→Lean translator on every "
                               "run and proved equal to the model" if p.get("generated_layer") else "")),
